@@ -114,6 +114,10 @@ __CPROVER_ensures(XV_CTL_ALL_ENTRY_I(XV_MSG_CFMP(response)))
 #define CL_REG(cp) XV_FLD(int, cp, offsetof(struct client, fd_reg_id))
 #define CL_PEND(cp) XV_FLD(bool, cp, offsetof(struct client, is_response_pending))
 #define CL_MSG(cp) ((uint8_t *)(cp) + offsetof(struct client, pending_response))                          /* address of its reply buffer */
+/* assigns clauses name scalar fields as byte slices (one array update instead of one per byte); ctl_process's single slice
+ * "session table and counter" relies on num_clients following clients[] directly: */
+_Static_assert(offsetof(struct ctl, num_clients) == offsetof(struct ctl, clients) + sizeof(struct client[MAX_CLIENTS]), "struct ctl layout");
+_Static_assert(offsetof(struct client, fd) == 0 && offsetof(struct client, is_response_pending) == 8, "struct client layout");
 #define CTL_REG_OK(id) ((id) >= 0 && (id) < XV_CTL_REGS && xv_ctl_live[id])
 #define CTL_INV(ctl) (CTL_NUM(ctl) >= 0 && CTL_NUM(ctl) <= MAX_CLIENTS && CTL_SOCK(ctl)->xpoll == xv_ctl_xpoll && \
     CTL_SFD(ctl) >= 0 && CTL_REG_OK(CTL_SREG(ctl)) && \
@@ -231,8 +235,8 @@ static void accept_client(struct ctl *ctl)
 __CPROVER_requires(XV_CTL_Z_LO)
 __CPROVER_requires(XV_CTL_Z_HI)
 __CPROVER_requires(CTL_MEM(ctl) && CTL_INV(ctl) && CTL_FOREIGN(ctl) && CTL_NUM(ctl) < MAX_CLIENTS)
-__CPROVER_assigns(CTL_EP_GHOSTS, AC_GHOSTS, CTL_NUM(ctl))
-__CPROVER_assigns(CL_FD(CTL_CP(ctl, CTL_NUM(ctl))), CL_REG(CTL_CP(ctl, CTL_NUM(ctl))), CL_PEND(CTL_CP(ctl, CTL_NUM(ctl))))
+__CPROVER_assigns(CTL_EP_GHOSTS, AC_GHOSTS, __CPROVER_object_upto(&CTL_NUM(ctl), XV_CTL_SIZEOF(int)))
+__CPROVER_assigns(__CPROVER_object_upto(CTL_CP(ctl, CTL_NUM(ctl)), offsetof(struct client, is_response_pending) + XV_CTL_SIZEOF(bool)))
 __CPROVER_ensures(CTL_INV(ctl) && CTL_FOREIGN(ctl) && CTL_INC(xv_ctl_readable_calls))
 /* PO[C14] accept_client.table_bound */
 __CPROVER_ensures((xv_ctl_readable && xv_ctl_accept_rc >= 0) \
@@ -249,7 +253,7 @@ static void remove_client(struct ctl *ctl, int client_idx)
 __CPROVER_requires(XV_CTL_Z_LO)
 __CPROVER_requires(XV_CTL_Z_HI)
 __CPROVER_requires(CTL_MEM(ctl) && CTL_INV(ctl) && CTL_FOREIGN(ctl) && client_idx >= 0 && client_idx < CTL_NUM(ctl))
-__CPROVER_assigns(CTL_EP_GHOSTS, RC_GHOSTS, CTL_NUM(ctl), __CPROVER_object_upto(CTL_CP(ctl, 0), XV_CTL_SIZEOF(struct client)))
+__CPROVER_assigns(CTL_EP_GHOSTS, RC_GHOSTS, __CPROVER_object_upto(&CTL_NUM(ctl), XV_CTL_SIZEOF(int)), __CPROVER_object_upto(CTL_CP(ctl, 0), XV_CTL_SIZEOF(struct client)))
 __CPROVER_ensures(CTL_INV(ctl) && CTL_FOREIGN(ctl) && CTL_HDR_SAME(ctl))
 /* PO[C14] remove_client.session_closed */
 __CPROVER_ensures(CTL_NUM(ctl) == __CPROVER_old(CTL_NUM(ctl)) - 1 && CTL_INC(xv_ctl_close_calls) && \
@@ -271,7 +275,7 @@ __CPROVER_requires(XV_CTL_Z_LO)
 __CPROVER_requires(XV_CTL_Z_HI)
 __CPROVER_requires(CTL_MEM(ctl) && CTL_INV(ctl) && CTL_FOREIGN(ctl))
 __CPROVER_assigns(CTL_EP_GHOSTS, CS_GHOSTS, CR_GHOSTS, AC_GHOSTS, RC_GHOSTS, \
-                  CTL_NUM(ctl), __CPROVER_object_upto(CTL_CP(ctl, 0), XV_CTL_SIZEOF(struct client[MAX_CLIENTS])))
+                  __CPROVER_object_upto(CTL_CP(ctl, 0), XV_CTL_SIZEOF(struct client[MAX_CLIENTS]) + sizeof(int)))
 /* PO[C14] ctl_process.table_invariant */
 __CPROVER_ensures(CTL_INV(ctl) && CTL_NUM(ctl) >= 0 && CTL_NUM(ctl) <= MAX_CLIENTS)
 /* PO[C14] ctl_process.errno_restored */
